@@ -24,7 +24,7 @@ deriving DecidableEq, Repr
 
 abbrev FS := List (P × Kind)
 
-inductive Exn | filerError | osError
+inductive Exn | filerError | osError | typeError
 deriving DecidableEq, Repr
 
 /-! ### `os.path` on strings -/
@@ -155,6 +155,8 @@ structure Cfg where
   ext : Bool
   head : P
   tempHead : P
+  badName : Bool := false     -- `name` is not path-like (None, an int): `os.path.isabs(name)` raises `TypeError`
+  badBase : Bool := false     -- the same for `base`
 
 /-- `TMP<n>` -/
 def tmpSeg (n : Nat) : Seg := [84, 77, 80] ++ (toString n).toList.map Char.toNat
@@ -276,17 +278,27 @@ inductive Step
   | reopen (clear reuse clean : Bool) (temp : Option Bool) (fext : Option (List Nat))
   | close (clear : Bool)
   | exit (clear : Bool)     -- leaving `with openFiler(..., clear=clear)`: `filer.close(clear=filer.temp or clear)`
+  | exists                  -- `filer.exists(...)`: a query, touches nothing
   | doer                    -- a `FilerDoer` run by a Doist: `enter` reopens when not opened, `exit` closes with `clear=filer.temp`
 
 def step (c : Cfg) (s : St) : Step → St × Except Exn Unit
   | .reopen a b cl t f => reopen c s a b cl t f
   | .close a => close c s a
   | .exit a => close c s (s.temp || a)
+  | .exists => (s, .ok ())
   | .doer =>
     if s.opened then close c s s.temp
     else match reopen c s false false false none none with
       | (s1, .error e) => (s1, .error e)
       | (s1, .ok _) => close c s1 s1.temp
+
+/-- `Filer(name=…, base=…, clean=…, reopen=True)`: a name or base that is not path-like raises `TypeError` in
+`__init__` before anything is touched; otherwise the constructor is the first `reopen` -/
+def construct (c : Cfg) (s : St) (clean : Bool) : St × Except Exn Unit :=
+  if c.badName then (s, .error .typeError)              -- `os.path.isabs(self.name)`
+  else if isabs c.name then (s, .error .filerError)
+  else if c.badBase then (s, .error .typeError)         -- `os.path.isabs(base)`
+  else reopen c s false false clean none none
 
 /-- a fresh object before its constructor's `reopen` -/
 def fresh (c : Cfg) (fs : FS) : St := ⟨fs, 0, none, c.temp, c.fext, false⟩
